@@ -18,6 +18,19 @@ def pat_enum(arm, pname):
         for p in rp.small_patterns(2 if tier == 'quick' else 3, rng=rng, cap=60):
             if p[0] == 'P' + arm:
                 yield {pname: p}
+        if arm == 'Instantiate':
+            # notation nested in notation (kore_bottom(s) style): the expansion is reached only after several unfoldings
+            nil = ('inil',)
+            mv = lambda i: ('PMetaVar', i, nil, nil, nil, nil, nil)
+            pn = ('pnil',)
+            heads = [('PMu', 0, ('PSVar', 0)), ('PExists', 0, ('PEVar', 0)), ('PImplies', mv(0), ('PEVar', 1)), ('PApp', ('PSymbol', 0), mv(0)), ('PEVar', 0), ('PSymbol', 0)]
+            for h in heads:
+                one = ('PInstantiate', h, pn)
+                two = ('PInstantiate', one, pn)
+                yield {pname: two}
+                yield {pname: ('PInstantiate', two, pn)}
+                yield {pname: ('PInstantiate', mv(0), ('pcons', 0, one, pn))}
+                yield {pname: ('PInstantiate', ('PInstantiate', mv(0), ('pcons', 0, mv(1), pn)), ('pcons', 1, h, pn))}
     return gen
 
 
